@@ -34,7 +34,7 @@ import (
 func init() {
 	Register(&Prop{
 		ID: "C33",
-		Rule: "fmt: random and boundary 16-byte values; gen: up to 200k sequential and 16x20k concurrent generator calls; s3/gcs: real Upload calls (sequential and concurrent, " +
+		Rule: "fmt: random and boundary 16-byte values; gen: 60k sequential + 96k concurrent (16 goroutines) in one key space (1M + 1.6M thorough) generator calls; s3/gcs: real Upload calls (sequential and concurrent, " +
 			"several prefixes, both encodings) against local fake endpoints, keys taken from the requests; non-trivial = a gen/s3/gcs line; distinct = distinct scripts",
 		Gen:  c33Gen,
 		Exec: c33Exec,
@@ -114,6 +114,8 @@ func c33Servers() {
 		os.Setenv("AWS_REGION", "us-east-1")
 		os.Setenv("AWS_EC2_METADATA_DISABLED", "true")
 		os.Setenv("STORAGE_EMULATOR_HOST", strings.TrimPrefix(c33GCSrv.URL, "http://"))
+		// the signed-URL step looks for credentials; make the metadata-server probe fail at once
+		os.Setenv("GCE_METADATA_HOST", "127.0.0.1:1")
 	})
 }
 
@@ -212,7 +214,12 @@ func c33Exec(c *Case) {
 			b := MustUnX(f[1])
 			var a [16]byte
 			copy(a[:], b)
-			c.Out(l, vgis3.VerifC33FormatUUID(a))
+			txt := vgis3.VerifC33FormatUUID(a)
+			c.Out(l, txt)
+			// formatting must lose nothing: the text decodes back to the 16 bytes
+			if back, err := hex.DecodeString(strings.ReplaceAll(txt, "-", "")); err != nil || string(back) != string(a[:]) || !c33UUIDRe.MatchString(txt) {
+				c.Oracle("uuid-text-does-not-determine-the-bytes", fmt.Sprintf("formatUUID(%x) = %q", a, txt))
+			}
 		case "gen":
 			var mu sync.Mutex
 			keys := make([]string, 0, n)
@@ -295,7 +302,7 @@ func c33Gen(g *Gen) {
 	}
 	g.Case(fm...)
 	// the generator alone: long sequential runs and concurrent runs share one key space
-	g.Case(fmt.Sprintf("gen n=%d workers=1", g.N(100000, 1000000)), fmt.Sprintf("gen n=%d workers=16", g.N(160000, 1600000)))
+	g.Case(fmt.Sprintf("gen n=%d workers=1", g.N(60000, 1000000)), fmt.Sprintf("gen n=%d workers=16", g.N(96000, 1600000)))
 	for i := 0; i < g.N(6, 30); i++ {
 		g.Case(fmt.Sprintf("gen n=%d workers=%d", r.Range(1000, 20000), Pick(r, []int{1, 2, 4, 8, 32})))
 	}
@@ -305,7 +312,7 @@ func c33Gen(g *Gen) {
 		p := Pick(r, prefixes)
 		var ls []string
 		for k := 0; k < r.Range(1, 3); k++ {
-			ls = append(ls, fmt.Sprintf("s3 n=%d workers=%d prefix=%s enc=%s", r.Range(40, 200), Pick(r, []int{1, 1, 4, 8}), hex.EncodeToString([]byte(p)), Pick(r, []string{"none", "zstd"})))
+			ls = append(ls, fmt.Sprintf("s3 n=%d workers=%d prefix=%s enc=%s", r.Range(30, 100), Pick(r, []int{1, 1, 4, 8}), hex.EncodeToString([]byte(p)), Pick(r, []string{"none", "zstd"})))
 		}
 		g.Case(ls...)
 	}
@@ -313,7 +320,7 @@ func c33Gen(g *Gen) {
 		p := Pick(r, prefixes)
 		var ls []string
 		for k := 0; k < r.Range(1, 3); k++ {
-			ls = append(ls, fmt.Sprintf("gcs n=%d workers=%d prefix=%s enc=%s", r.Range(40, 200), Pick(r, []int{1, 1, 4, 8}), hex.EncodeToString([]byte(p)), Pick(r, []string{"none", "zstd"})))
+			ls = append(ls, fmt.Sprintf("gcs n=%d workers=%d prefix=%s enc=%s", r.Range(30, 100), Pick(r, []int{1, 1, 4, 8}), hex.EncodeToString([]byte(p)), Pick(r, []string{"none", "zstd"})))
 		}
 		g.Case(ls...)
 	}
